@@ -542,9 +542,9 @@ func exec(spec string) (res engine.Result) {
 			}
 			lastMutation = 'r'
 		case 'c':
-			var pre generic.VerifAuxState
+			pre := ""
 			if last {
-				pre = generic.VerifAux(name)
+				pre = generic.VerifPath(name, cacheKey(o.spec))
 			}
 			obs := doCall(scope, name, o.spec)
 			if last {
@@ -569,7 +569,7 @@ func exec(spec string) (res engine.Result) {
 	}
 	// probes: every argument tuple, on the state just reached
 	for _, args := range cfg.calls {
-		pre := generic.VerifAux(name)
+		pre := generic.VerifPath(name, cacheKey(args))
 		obs := doCall(scope, name, args)
 		ex := m.call(args)
 		if recallArmed[args] {
@@ -639,15 +639,9 @@ func slotList(set map[int]bool) string {
 }
 
 // check compares one observed call with the reference expectation.
-func (ck *checker) check(how, args string, ex expect, obs callObs, pre generic.VerifAuxState, lastMutation byte) {
+func (ck *checker) check(how, args string, ex expect, obs callObs, path string, lastMutation byte) {
 	res := ck.res
-	// path taken inside Aux.Call, read from the implementation's pre-state
-	path := "miss"
-	if pre.Default != "" {
-		path = "default"
-	} else if _, has := pre.Cache[cacheKey(args)]; has {
-		path = "hit"
-	}
+	// path = the way Aux.Call takes, read from the implementation's state just before the call
 	res.Hit("path-" + path)
 	if lastMutation == 'r' {
 		res.Hit("call-after-remove")
